@@ -196,6 +196,55 @@ func checkC03(c *Ctx) {
 				h.Recipients = append(h.Recipients[:pos], append([]*format.Stanza{g}, h.Recipients[pos:]...)...)
 			})
 		}
+		// stanzas whose type merely LOOKS special (grease-like, suffixes / prefixes of real types)
+		for _, ty := range []string{"grease", "x-grease", "grease-x", "X25519-grease", "scrypt-grease", "stub", "X25519x", "ssh-", "age"} {
+			for pos := 0; pos <= len(h.Recipients); pos += 1 + len(h.Recipients)/2 {
+				pos, ty := pos, ty
+				edit("insert-lookalike", func(h *format.Header) {
+					g := &format.Stanza{Type: ty, Args: []string{"arg"}, Body: c.rng.bytes(c.rng.intn(60))}
+					h.Recipients = append(h.Recipients[:pos], append([]*format.Stanza{g}, h.Recipients[pos:]...)...)
+				})
+			}
+		}
+		// alternative spellings of one header line: URL-safe base64 alphabet, padding, lower-cased type
+		{
+			lines := bytes.SplitAfter(file[:hdrLen], []byte("\n"))
+			for li := 1; li < len(lines); li++ {
+				if len(lines[li]) == 0 {
+					continue
+				}
+				for _, respell := range []func([]byte) []byte{
+					func(l []byte) []byte { return bytes.ReplaceAll(bytes.ReplaceAll(l, []byte("+"), []byte("-")), []byte("/"), []byte("_")) },
+					func(l []byte) []byte { return append(append([]byte{}, bytes.TrimSuffix(l, []byte("\n"))...), []byte("=\n")...) },
+					func(l []byte) []byte { return bytes.ToLower(l) },
+				} {
+					nl := respell(lines[li])
+					if bytes.HasPrefix(lines[li], []byte("->")) || bytes.HasPrefix(lines[li], []byte("---")) {
+						// keep the marker itself
+						mk := 3
+						if bytes.HasPrefix(lines[li], []byte("---")) {
+							mk = 4
+						}
+						if len(lines[li]) > mk {
+							nl = append(append([]byte{}, lines[li][:mk]...), respell(lines[li][mk:])...)
+						}
+					}
+					if bytes.Equal(nl, lines[li]) {
+						continue
+					}
+					var t []byte
+					for lj, l := range lines {
+						if lj == li {
+							t = append(t, nl...)
+						} else {
+							t = append(t, l...)
+						}
+					}
+					t = append(t, payload...)
+					c.c03Try("line-respelled", "header-respelling-accepted", file, t, openers, in)
+				}
+			}
+		}
 		if len(h.Recipients) >= 2 {
 			for _, perm := range permutations(len(h.Recipients)) {
 				perm := perm
